@@ -47,8 +47,11 @@ Proof. intros t x. rewrite vars_collect. apply collect_sound_complete. Qed.
 Definition cfg_partA : cfg :=
   {| c_an := fun t => collect false (emb t); c_unknown := false; c_revert := RevFresh; c_patch := PAssert; c_wrap_dyn := false |}.
 
-Theorem cfg_partA_faithful : faithful cfg_partA.
-Proof. repeat split; try reflexivity; intros H; apply vars_collect; exact H. Qed.
+Theorem cfg_partA_faithful : faithful false cfg_partA.
+Proof.
+  unfold faithful. cbn. split; [reflexivity|]. split; [reflexivity|]. split; [reflexivity|]. split; [reflexivity|].
+  intros _ t x. split; intros Hx; apply vars_collect; exact Hx.
+Qed.
 
 Lemma rec_fields_scope : forall l, rec_fields (emb_stat l) [] = lit_scope l.
 Proof.
